@@ -8,7 +8,21 @@
 //   * the goal (a GoalState whose isSatisfied(st, &dist) also logs state, distance and answer).
 //
 //   header:  conctrace <seed>
-//   prrt <threads> <budget> <perturb_permille> <resolution> <threshold> <range|0> <goal_bias> <space> <boxes> <start> <goal>
+//   prrt <threads> <budget> <perturb_permille> <resolution> <threshold> <range|0> <goal_bias> <gate> <space> <boxes> <start> <goal>
+//        gate = number of goal tests (counted over all workers) that end in a pairwise rendezvous: a worker leaving
+//        isSatisfied() waits (bounded spin, no deadlock) for another worker to arrive there and both are released together,
+//        so that two solution updates start within nanoseconds of each other - the directed schedule for the
+//        check-then-act window `if (dist < sol->approxdif) { lock; if (dist < sol->approxdif) ...` of threadSolve
+//
+//   prrtrace <rounds> <workers>
+//        directed schedule for the window between the unlocked pre-check `if (dist < sol->approxdif)` and `sol->lock.lock()`
+//        in threadSolve (no user code runs there, so it cannot be held open from a callback): a class derived from pRRT
+//        runs solve()'s prologue itself and calls the REAL protected threadSolve(tid, ptc, &sol) on <workers> threads with
+//        a SolutionInfo the harness owns, whose lock the main thread holds while every worker does exactly one iteration:
+//        all of them pass the pre-check against +infinity (they leave the goal test together, barrier) and queue on the
+//        lock; the main thread then releases it.  Whatever the order in which they get the lock, approxdif/approxsol
+//        must end as the closest of the added states.  Output: one line
+//        `prrtrace rounds= synced= wrong= first_wrong=<round>:<dists…>-><final>`
 //
 // output (doubles as u64 bit patterns):
 //   prrt <dim> <maxDistance> <threshold> <goal…> <root…>       header line for the driver
@@ -18,6 +32,8 @@
 #include "common/planning.h"
 #include <ompl/base/DiscreteMotionValidator.h>
 #include <ompl/base/goals/GoalState.h>
+#include <ompl/base/spaces/RealVectorStateSpace.h>
+#include <cmath>
 #include <ompl/datastructures/NearestNeighborsGNAT.h>
 #include <ompl/geometric/planners/rrt/pRRT.h>
 #include <atomic>
@@ -59,6 +75,46 @@ namespace
         }
     };
     Log *gLog = nullptr;
+
+    // pairwise rendezvous (see header comment): 0 = nobody waiting, 1 = one worker waiting, 2 = its partner has arrived
+    std::atomic<int> gSlot{0};
+    std::atomic<long> gGate{0};
+    std::atomic<unsigned long> gPaired{0};
+    void rendezvous()
+    {
+        if (gGate.fetch_sub(1, std::memory_order_relaxed) <= 0)
+            return;
+        int expected = 0;
+        if (gSlot.compare_exchange_strong(expected, 1))
+        {
+            for (unsigned spins = 0; spins < 40000; ++spins)
+            {
+                if (gSlot.load(std::memory_order_acquire) == 2)
+                {
+                    gSlot.store(0, std::memory_order_release);
+                    gPaired.fetch_add(1, std::memory_order_relaxed);
+                    return;
+                }
+                if (spins % 512 == 511)
+                    sched_yield();
+            }
+            expected = 1;
+            if (!gSlot.compare_exchange_strong(expected, 0))
+            {
+                gSlot.store(0, std::memory_order_release);  // the partner arrived at the last moment
+                gPaired.fetch_add(1, std::memory_order_relaxed);
+            }
+        }
+        else if (expected == 1)
+        {
+            // release the waiting worker (if somebody else was faster, go alone) and leave together with it: wait for its
+            // acknowledgement (it resets the slot the moment it sees us), bounded
+            if (gSlot.compare_exchange_strong(expected, 2))
+                for (unsigned spins = 0; spins < 200000 && gSlot.load(std::memory_order_acquire) == 2; ++spins)
+                    if (spins % 4096 == 4095)
+                        sched_yield();
+        }
+    }
 
     template <typename T>
     class RecNN : public ompl::NearestNeighborsGNAT<T>
@@ -117,10 +173,15 @@ namespace
             bool s = ob::GoalState::isSatisfied(st, &d);
             if (distance != nullptr)
                 *distance = d;
-            std::lock_guard<std::mutex> g(gLog->m);
-            int t = gLog->who();
+            int t;
+            {
+                std::lock_guard<std::mutex> g(gLog->m);
+                t = gLog->who();
+                if (t >= 0)
+                    gLog->lines.push_back("G " + std::to_string(t) + " " + gLog->st(st) + " " + vp::bits(d) + " " + (s ? "1" : "0"));
+            }
             if (t >= 0)
-                gLog->lines.push_back("G " + std::to_string(t) + " " + gLog->st(st) + " " + vp::bits(d) + " " + (s ? "1" : "0"));
+                rendezvous();
             return s;
         }
     };
@@ -176,6 +237,153 @@ namespace
         uint64_t seed_;
     };
 
+    // ---------------------------------------------------------------- directed: approximate-solution update
+    struct Gate
+    {
+        unsigned workers = 0;
+        std::atomic<unsigned> arrived{0};
+        std::mutex m;
+        std::vector<double> dists;
+    };
+
+    class GateGoal : public ob::GoalState
+    {
+    public:
+        GateGoal(const ob::SpaceInformationPtr &si, Gate *g) : ob::GoalState(si), gate_(g)
+        {
+        }
+        bool isSatisfied(const ob::State *st) const override
+        {
+            return ob::GoalState::isSatisfied(st);
+        }
+        bool isSatisfied(const ob::State *st, double *distance) const override
+        {
+            double d = 0.0;
+            bool s = ob::GoalState::isSatisfied(st, &d);
+            if (distance != nullptr)
+                *distance = d;
+            if (std::this_thread::get_id() != main_)
+            {
+                {
+                    std::lock_guard<std::mutex> g(gate_->m);
+                    gate_->dists.push_back(d);
+                }
+                gate_->arrived.fetch_add(1, std::memory_order_acq_rel);
+                // leave together (bounded: ~50 ms)
+                for (unsigned spins = 0; gate_->arrived.load(std::memory_order_acquire) < gate_->workers && spins < 50000; ++spins)
+                    if (spins % 64 == 63)
+                        usleep(1);
+            }
+            return s;
+        }
+        std::thread::id main_ = std::this_thread::get_id();
+
+    private:
+        Gate *gate_;
+    };
+
+    class DirectedPRRT : public og::pRRT
+    {
+    public:
+        using og::pRRT::pRRT;
+        // solve()'s prologue, then the real threadSolve on every worker with OUR SolutionInfo; returns (approxdif, reals of approxsol)
+        std::pair<double, std::vector<double>> race(Gate &gate, bool &synced)
+        {
+            checkValidity();
+            samplerArray_.resize(threadCount_);
+            while (const ob::State *st = pis_.nextStart())
+            {
+                auto *motion = new Motion(si_);
+                si_->copyState(motion->state, st);
+                nn_->add(motion);
+            }
+            SolutionInfo sol;
+            sol.solution = nullptr;
+            sol.approxsol = nullptr;
+            sol.approxdif = std::numeric_limits<double>::infinity();
+            // every worker gets exactly one iteration
+            ob::PlannerTerminationCondition ptc([] {
+                thread_local bool asked = false;
+                bool r = asked;
+                asked = true;
+                return r;
+            });
+            sol.lock.lock();
+            std::vector<std::thread> th;
+            for (unsigned i = 0; i < threadCount_; ++i)
+                th.emplace_back([this, i, &ptc, &sol] { threadSolve(i, ptc, &sol); });
+            for (unsigned spins = 0; gate.arrived.load(std::memory_order_acquire) < gate.workers && spins < 100000; ++spins)
+                usleep(1);
+            synced = gate.arrived.load() >= gate.workers;
+            usleep(1500);  // let them run from the goal test into the lock (nothing depends on this being enough)
+            sol.lock.unlock();
+            for (auto &x : th)
+                x.join();
+            std::vector<double> r;
+            if (sol.approxsol != nullptr)
+                si_->getStateSpace()->copyToReals(r, sol.approxsol->state);
+            return {sol.approxdif, r};
+        }
+    };
+
+    std::string opPrrtRace(const std::vector<std::string> &t)
+    {
+        size_t i = 1;
+        unsigned rounds = needN(t, i), workers = needN(t, i);
+        if (i != t.size() || workers < 2 || workers > 16)
+            throw vp::ParseError("prrtrace");
+        unsigned syncedRounds = 0, wrong = 0;
+        std::string firstWrong = "none";
+        for (unsigned r = 0; r < rounds; ++r)
+        {
+            auto space = std::make_shared<ob::RealVectorStateSpace>(2);
+            space->setBounds(0.0, 1.0);
+            auto si = std::make_shared<ob::SpaceInformation>(space);
+            si->setStateValidityChecker([](const ob::State *) { return true; });
+            si->setup();
+            Gate gate;
+            gate.workers = workers;
+            auto pdef = std::make_shared<ob::ProblemDefinition>(si);
+            ob::ScopedState<> s(space), g(space);
+            s[0] = 0.5;
+            s[1] = 0.5;
+            g[0] = 0.9;
+            g[1] = 0.9;
+            pdef->addStartState(s);
+            auto gs = std::make_shared<GateGoal>(si, &gate);
+            gs->setState(g);
+            gs->setThreshold(0.0);  // never satisfied: every update is an approximate-solution update
+            pdef->setGoal(gs);
+            auto p = std::make_shared<DirectedPRRT>(si);
+            p->setThreadCount(workers);
+            p->setGoalBias(0.0);
+            p->setRange(3.0);  // no steering: the added state is the sample, all distances differ
+            p->setProblemDefinition(pdef);
+            p->setup();
+            bool synced = false;
+            auto res = p->race(gate, synced);
+            syncedRounds += synced ? 1 : 0;
+            double best = std::numeric_limits<double>::infinity();
+            for (double d : gate.dists)
+                best = std::min(best, d);
+            bool ok = gate.dists.size() == workers && res.first == best && !res.second.empty() &&
+                      std::sqrt((res.second[0] - 0.9) * (res.second[0] - 0.9) + (res.second[1] - 0.9) * (res.second[1] - 0.9)) == best;
+            if (!ok)
+            {
+                if (wrong++ == 0)
+                {
+                    firstWrong = std::to_string(r) + ":";
+                    for (double d : gate.dists)
+                        firstWrong += vp::bits(d) + ",";
+                    firstWrong += "->" + vp::bits(res.first);
+                }
+            }
+            p->clear();
+        }
+        return "prrtrace rounds=" + std::to_string(rounds) + " workers=" + std::to_string(workers) +
+               " synced=" + std::to_string(syncedRounds) + " wrong=" + std::to_string(wrong) + " first_wrong=" + firstWrong;
+    }
+
     void opPrrt(const std::vector<std::string> &t, uint64_t rootSeed)
     {
         size_t i = 1;
@@ -183,6 +391,10 @@ namespace
         unsigned long budget = needN(t, i);
         unsigned permille = needN(t, i);
         double resolution = needF(t, i), threshold = needF(t, i), range = needF(t, i), goalBias = needF(t, i);
+        unsigned long gate = needN(t, i);
+        gSlot = 0;
+        gGate = static_cast<long>(gate);
+        gPaired = 0;
         auto space = vp::parseSpaceX(t, i);
         vp::Env env;
         env.parse(t, i);
@@ -240,7 +452,7 @@ namespace
         else
             std::cout << "E none\n";
         std::cout << "Z status=" << vp::statusName(st) << " threads=" << threads << " events=" << log.lines.size()
-                  << " workers_seen=" << log.ids.size() << " nsol=" << pdef->getSolutionCount()
+                  << " workers_seen=" << log.ids.size() << " paired=" << gPaired.load() << " nsol=" << pdef->getSolutionCount()
                   << " valid=" << si->getMotionValidator()->getValidMotionCount()
                   << " invalid=" << si->getMotionValidator()->getInvalidMotionCount()
                   << " resolution_len=" << vp::bits(space->getLongestValidSegmentLength()) << std::endl;
@@ -274,6 +486,8 @@ int main()
         {
             if (t[0] == "prrt")
                 opPrrt(t, seed);
+            else if (t[0] == "prrtrace")
+                std::cout << opPrrtRace(t) << std::endl;
             else
                 std::cout << "bad-op" << std::endl;
         }
